@@ -123,3 +123,18 @@ META["C17"] = {
     "text": "Exploration: a real in-process MOSN with 25 generated route variants per protocol (HTTP/1, HTTP/2, bolt) per batch/seed: prefix / regex path rewrite, host rewrite, request and response header add-append / overwrite / remove at route, virtual-host and router level on overlapping names, redirects (code / path / host / scheme), direct responses with and without body, timeout sources (route vs x-mosn-global-timeout vs the bolt frame's timeout field), retry policies (retry_on, num_retries 1..5, status code lists, per-try timeout, no policy). Each action route is exercised 3 (12) times with random pre-set header values and queries; the upstream's recorded URI / Host / headers and the client's status / Location / body / response headers are compared with the model; redirects and direct responses must never reach an upstream; per retry policy random per-attempt outcome sequences (2xx, 5xx, listed / unlisted code, close, per-try timeout, half response on HTTP/2) are run with a sequential client: attempts <= 1 + budget, retry only under listed conditions, successive attempts on different hosts (round robin over two healthy hosts).",
     "note": "A timeout-source mismatch must reproduce 3/3 before it counts; delays are a factor 2 away from the candidate and candidates a factor 4 apart (400 / 1600 ms). The 60 s default timeout is not exercised. MOSN-generated replies echo the request headers, so 'delivered' is judged by the upstream's body token. bolt status codes are not mapped onto HTTP retry conditions (only the budget is judged for bolt).",
 }
+
+META["C14"] = {
+    "engine": "vworker",
+    "design_ref": "DESIGN.md §3 C14, §2.4",
+    "technique": "trace checker over (scripted-filter call log x upstream log x client log) per request token on a running proxy; scripted stream filters registered through the public stream-filter API take their verdict from the request itself, so verdict vectors are enumerated exhaustively per chain shape",
+    "text": "Exploration with exhaustive sub-spaces: 10 chain shapes (0..6 receive filters with every phase mix: before-route, after-route, after-choose-host, in scrambled configured order; 0..2 send filters), one shape per batch, each on HTTP/1, bolt and HTTP/2 listeners of a real MOSN. For chains <= 4 EVERY verdict vector over {continue, hijack, direct response with body, TerminateStream(code), termination status, bare stop, re-match once (after-route filters), re-choose once (after-choose-host filters)} is sent (thorough; a seed-rotated third in quick), 800 (6000) sampled vectors for the 6-filter chain. Checked per token: a receive filter runs more than once only if it asked for the re-entry itself (earlier filters are not re-run); first invocations follow phase order and configured order; a request answered or terminated by a filter never reaches an upstream; the client gets exactly the filter's response (status) once, and that response passes every send filter exactly once; undenied requests are forwarded once.",
+    "note": "What follows a bare Stop status is not fixed by the statement (the proxy forwards anyway unless the filter also hijacked): such vectors are run and logged but only the order rules are judged. bolt replies built by the proxy carry a bolt status, so the status equality is judged for HTTP only.",
+}
+META["C18"] = {
+    "engine": "vworker",
+    "design_ref": "DESIGN.md §3 C18",
+    "technique": "differential against the reference implementation golang.org/x/net/http2 (+hpack): HPACK sessions in both directions across table-size changes, frame streams parsed by both framers whole and fragmented, and a raw-frame reference peer keeping a flow-control ledger against the real MOSN HTTP/2 connection objects over loopback in both sending roles",
+    "text": "Exploration: c18-hpack ~5.7e4 (2.8e5) evaluations of encoder/decoder sessions over 3..12 header blocks with table-size changes {0,1,4096,65536,...} and SetMaxDynamicTableSize calls between blocks, header lists 0..200 fields (repeated names, empty / 64 KiB values, hostile and Huffman-friendly strings, sensitive flag), MOSN->x/net, x/net->MOSN, and an RFC-written byte stream into both decoders. c18-framer ~1.1e5 (5.5e5) valid frame streams (all frame types, padding, priority, header blocks split over 0..9 CONTINUATION frames incl. empty fragments, frames up to 1 MiB) read by x/net and by MFramer whole and in several fragmentings: type, flags, stream, length, payload and decoded header fields must agree; non-termination is decided by counting buffer accesses. c18-flow 500 (3000) scripted cases with the real network.Connection + stream/http2 + MServerConn/MClientConn as sender: the peer's ledger (updated before each WINDOW_UPDATE it writes) bounds cumulative DATA per stream and per connection, checks MAX_FRAME_SIZE on every DATA frame, body content, header blocks kept contiguous, initial windows {0,1,100,65535,2^31-1}, INITIAL_WINDOW_SIZE changes mid-stream, completion judged only after all needed window was released.",
+    "note": "Trusts x/net/http2 v0.23.0. Two zones where the reference has no reading are not judged (its own double table-size update at a block start with entries left; PUSH_PROMISE + CONTINUATION). The only watchdog-based verdict ('stalled with open window') needs: PING ACK proves all frames were processed, every window is open, zero DATA during the stall watchdog, progress resumes only after an unneeded 1-byte WINDOW_UPDATE, 3/3 reproductions; any other watchdog firing is inconclusive.",
+}
